@@ -24,7 +24,8 @@ for k in sorted(res):
     ok = sum(1 for v in res[k].values() if v == 'ok')
     other = '; '.join(f'{c}: {v}' for c, v in sorted(res[k].items()) if v != 'ok') or '-'
     cons = ', '.join(meta.get('constructs_used', [])[:8]) if isinstance(meta.get('constructs_used'), list) else ''
-    out.append(f"| B{k} | {str(meta.get('area',''))[:90]} | {cons[:140]} | {ok}/{len(res[k])} | {other} |")
+    cl = lambda x: str(x).replace('|', '/').replace('\n', ' ')
+    out.append(f"| B{k} | {cl(meta.get('area',''))[:90]} | {cl(cons)[:140]} | {ok}/{len(res[k])} | {cl(other)} |")
     json.dump(res[k], open(f'/verif/benign/B{k}/results.json', 'w'), indent=1)
 open('/verif/benign/INDEX.md', 'w').write('\n'.join(out) + '\n')
 print('patches:', len(res), 'all ok:', sum(1 for k in res if all(v == 'ok' for v in res[k].values())))
